@@ -21,7 +21,7 @@ struct Interpose {
   // (the file keeps its content); false lets it through.
   std::function<bool(const std::string& path, const std::string& data)> onCtlWrite;
   // called for every open/openat/fopen64/opendir of a path under the sim base; may return an
-  // errno (>0) to fail the call or 0 to let it proceed
+  // errno (>0) to fail the call, 0 to let it proceed, -1 to serve an empty file instead
   std::function<int(const std::string& path, int flags)> onOpen;
   // after a successful open of a path under base (absolute path, open flags)
   std::function<void(const std::string& path, int flags)> onOpened;
